@@ -102,6 +102,7 @@ func formattingTemplateFuncs(config Config) template.FuncMap {
 		"formatFieldName":    formatFieldName,
 		"formatArgName":      formatArgName,
 		"formatVarName":      formatVarName,
+		"variableNamePart":   variableNamePart,
 		"formatFunctionName": formatFunctionName,
 		"formatScalar":       formatScalar,
 		"formatAny": func() string {
